@@ -1493,3 +1493,69 @@ def rule_enumpaths(m):
                    if len(res.samples) < 4 else None, fn=f.display())
     res.require_sites(5, 'enumeration functions')
     return res
+
+
+def rule_pred_orientation(m, which=('S-BFS', 'S-BFS-ALL', 'S-LC')):
+    """F-WL.orient: shape-independent necessary condition of "the predecessor p of v is joined to v by an edge p -> v":
+    a store pred[A] = B (or pred[A].push_back(B)) that sits inside a range-for over getOutNeighbours(X) relates A and B
+    through that enumeration; with loop variable n it must be pred[n] = X (n is a successor of X), never pred[X] = n, which
+    records a *successor* as the parent - right on an undirected graph only. Decided per instantiation; reported for the
+    instantiations on a directed class."""
+    res = RuleResult('F-WL.orient', 'a predecessor stored inside an enumeration of getOutNeighbours(X) is X for the enumerated '
+                                    'neighbour, not the neighbour for X (the edge runs from the predecessor to the vertex) - '
+                                    'in any loop shape, for every instantiation on a directed class')
+    for tn, schema in SEARCHES:
+        if schema not in which:
+            continue
+        fs = m.by_tname.get(tn, [])
+        if not fs:
+            res.broken('F-WL.orient: anchor vanished: no analysed instantiation of ' + tn)
+            continue
+        for f in fs:
+            tt = Terms(f)
+            disp = f.display()
+            directed = 'Directed' in disp and 'Undirected' not in disp.split('<', 1)[-1].split(',')[0]
+            loops = []
+            for n in f.nodes:
+                if n['k'] == 'CXXForRangeStmt':
+                    r = tt.t(n['rangeinit'])
+                    if r[0] == 'mcall' and r[1].endswith(('::getOutNeighbours', '::getNeighbours')) and len(r[3]) == 1:
+                        loops.append((n, strip_conv(r[3][0]), ('var', n['loopvar']), set(f.descendants(n['body']))))
+            stores = []
+            for n in f.nodes:
+                t = None
+                if n['k'] == 'BinaryOperator' and n.get('op') == '=':
+                    t = tt.t(n['i'])
+                    if t[0] == 'bin' and t[2][0] == 'idx' and t[2][1][0] == 'var':
+                        stores.append((n['i'], t[2][1][1], strip_conv(t[2][2]), strip_conv(t[3])))
+                elif n['k'] == 'CXXMemberCallExpr' and 'callee' in n and f.unit.decl(n['callee'])['name'] in ('push_back', 'emplace_back') \
+                        and n.get('args'):
+                    o = tt.t(n.get('obj', -1))
+                    if o[0] == 'idx' and o[1][0] == 'var':
+                        stores.append((n['i'], o[1][1], strip_conv(o[2]), strip_conv(tt.t(n['args'][0]))))
+            for nid, arr, a, b in stores:
+                ct = (f.unit.decl(arr) or {}).get('ctype', '')
+                if not (ct.startswith('std::vector<unsigned int') or ct.startswith('std::vector<std::list<unsigned int')
+                        or ct.startswith('std::vector<std::vector<unsigned int')):
+                    continue
+                if a[0] != 'var' or b[0] != 'var' or a == b:
+                    continue
+                for ln, x, lv, body in loops:
+                    if nid not in body:
+                        continue
+                    if a == lv and b == x:
+                        res.sites += 1
+                        res.ok(dict(function=disp, store=f.expr_text(nid)[:70], scan=f.expr_text(ln['rangeinit'])[:60])
+                               if len(res.samples) < 4 else None, fn=disp)
+                    elif a == x and b == lv:
+                        res.sites += 1
+                        if directed:
+                            res.fail(Finding('F-WL.orient', disp, 'successor stored as predecessor', f.nloc(nid),
+                                             '`%s` inside the enumeration of `%s`: the enumerated vertex is a successor of `%s` '
+                                             '(the edge runs %s -> %s) and is recorded as its predecessor; on a directed graph '
+                                             'the recorded parent need not be an in-neighbour, so distances and paths follow '
+                                             'edges that do not exist' % (f.expr_text(nid)[:60], f.expr_text(ln['rangeinit'])[:60],
+                                                                          show(x, f.unit), show(x, f.unit), show(lv, f.unit))))
+                        else:
+                            res.ok(None, fn=disp)
+    return res
